@@ -74,7 +74,7 @@ def main():
         c.count(cid, nontrivial=True)      # one case per (object, codec); duplicates (the same unit drawn twice) collapse in the distinct count
     c.cov["codec_runs"] = r["counts"]
     c.cov["registered"] = r["registered"]
-    JSONISH = ("json", "json-installed", "pydantic", "pydantic-dict", "sql-composite")
+    JSONISH = ("json", "json-installed", "json-installed-file", "json-install-fn", "pydantic", "pydantic-dict", "sql-composite")
     for f in r["fails"]:
         if f["codec"] == "setup": continue
         repl = {"codec": f["codec"], "object": f["object"], "came_back": f.get("got"), "spec": f.get("spec"),
